@@ -204,8 +204,60 @@ let run_ts (args : string list) : string =
     String.concat " " (rstr @ [Printf.sprintf "written=%d buffered=%d hwm=%d sum=%08x" (List.length s.TrySend.k_written)
                                  (List.length s.TrySend.k_buf) (int_of_n Src.hwm) (fnv all)])
 
+(* proxy: same case syntax as harness/src/proxy.rs *)
+let run_proxy (args : string list) : string =
+  match split_ops args with
+  | [] -> "empty"
+  | head :: ops ->
+    let ty s = match Codec.stype_of_name (bytes_of_str s) with Some t -> t | None -> failwith "stype" in
+    let with_cap = List.mem "cap" head in
+    let capw = if with_cap then
+        let (_, w) = World.step (World.world0 Codec.PUSH) (World.OAttach (conn_id "c", None)) in
+        let (_, w) = World.step w (World.OWire (conn_id "c")) in Some w
+      else None in
+    let st = ref (Proxy.pstate0 (World.world0 (ty (List.nth head 0))) (World.world0 (ty (List.nth head 1))) capw) in
+    let out = ref [] in
+    let upd_side c f =
+      let s = !st in
+      if c = 'f' then begin
+        let (obs, w') = f s.Proxy.p_front in
+        st := { s with Proxy.p_front = w' }; obs
+      end else begin
+        let (obs, w') = f s.Proxy.p_back in
+        st := { s with Proxy.p_back = w' }; obs
+      end in
+    let settle () =
+      st := Proxy.proxy_settle (nat_of_int 10000) !st in
+    List.iter (fun toks ->
+      match toks with
+      | [] -> ()
+      | ["settle"] -> settle ()
+      | ["status"] -> settle (); out := (if (!st).Proxy.p_done then "status=ended" else "status=running") :: !out
+      | ["cwire"] ->
+          (match (!st).Proxy.p_cap with
+           | Some wc ->
+               let (obs, wc') = World.step wc (World.OWire (conn_id "c")) in
+               st := { !st with Proxy.p_cap = Some wc' };
+               List.iter (fun o -> match o with World.BWire (_, b) -> out := ("cwire=" ^ hex_of b) :: !out | _ -> ()) obs
+           | None -> out := "cwire=-" :: !out)
+      | op :: rest ->
+          let c = op.[0] and cmd = String.sub op 1 (String.length op - 1) in
+          (match cmd, rest with
+           | "attach", name :: _pt :: opts ->
+               let ann = match opt_val "id=" opts with Some h -> Some (bytes_tok h) | None -> None in
+               let _ = upd_side c (fun w -> World.step w (World.OAttach (conn_id name, ann))) in
+               out := Printf.sprintf "%catt:%s=ok" c name :: !out
+           | "feed", [name; h] -> ignore (upd_side c (fun w -> World.step w (World.OFeed (conn_id name, bytes_tok h))))
+           | "eof", [name] -> ignore (upd_side c (fun w -> World.step w (World.OEof (conn_id name))))
+           | "wire", [name] ->
+               let obs = upd_side c (fun w -> World.step w (World.OWire (conn_id name))) in
+               List.iter (fun o -> match o with World.BWire (_, b) -> out := Printf.sprintf "%cwire:%s=%s" c name (hex_of b) :: !out | _ -> ()) obs
+           | _ -> raise (Unsupported op))) ops;
+    String.concat " " (List.rev !out)
+
 let run_case kind (args : string list) : string =
   match kind with
+  | "proxy" -> (try run_proxy args with Unsupported s -> "model-unsupported " ^ s)
   | "ts" -> run_ts args
   | "fq" -> run_fq args
   | "sock" -> (try run_sock args with Unsupported s -> "model-unsupported " ^ s)
